@@ -19,17 +19,32 @@ theorem Reader.unescape_ok (r : Reader) : Ok r.unescape := by
 theorem Reader.insertExpansion_ok (r : Reader) (l : List Str) (d : Nat) : Ok (r.insertExpansion l d) := by
   intro s hI; unfold Reader.insertExpansion; hoare
 
-theorem Reader.readTo_go_ok (r : Reader) (p : Pat) : ∀ ls pos acc, Ok (Reader.readTo.go r p ls pos acc) := by
-  have h1 := fun (mt : Match) => str_residual mt 1 "readTo match[1]" (by decide)
+theorem Reader.readTo_go_ok (r : Reader) (p : Pat) (hp : p.ngroups = 0 ∨ p.Sets 1 = true) :
+    ∀ ls pos acc, Ok (Reader.readTo.go r p ls pos acc) := by
+  have h1 : p.ngroups > 0 → ∀ (l : Str) (mt : Match), p.search l = some mt → ∀ site s,
+      ∃ a, (mt.str 1 site).run s = .ok (a, s) ∧ mt.res.group mt.inp 1 = some a := by
+    intro hg l mt h
+    rcases hp with h0 | h1
+    · omega
+    · exact pc_str (Pat.search_of (Nat.zero_le _) h) h1
   intro ls
   induction ls with
   | nil => intro pos acc s hI; unfold Reader.readTo.go; hoare
   | cons l t ih => intro pos acc s hI; unfold Reader.readTo.go; hoare
 
-theorem Reader.readTo_ok (r : Reader) (p : Pat) : Ok (r.readTo p) := by
-  unfold Reader.readTo; exact Reader.readTo_go_ok r p _ _ _
+theorem Reader.readTo_ok (r : Reader) (p : Pat) (hp : p.ngroups = 0 ∨ p.Sets 1 = true) : Ok (r.readTo p) := by
+  unfold Reader.readTo; exact Reader.readTo_go_ok r p hp _ _ _
 
 @[hspec] theorem panic_ok (msg : Str) : Ok (panic msg) := by unfold panic; exact errorCallback_ok _
+
+/-- a match of a pattern that consumes at least one character is not the empty string -/
+theorem whole_ne_nil {m : Match} {p : Pat} (hm : m.Of p) (h : 1 ≤ minLen p.re) : m.whole ≠ [] := by
+  obtain ⟨_, hM, hst⟩ := hm
+  have h1 := hM.owed_le
+  rw [owed_zero] at h1
+  have h2 := (hM.bounds hst).2
+  unfold Match.whole
+  exact slice_length_pos (by omega) h2
 
 /-! ## expansion options -/
 
@@ -320,19 +335,22 @@ omit hs in
 /-- what the line-block rules need of a definition: its filter's groups take part in every match, and the quote of a
     quote definition is not empty -/
 def LineDefOk (d : LineDef) : Prop :=
-  (∀ i ∈ Facts.lineFilterGroups d.filter, d.pat.Sets i = true) ∧ (d.filter = .quoteDef → groupAll nonEmptyBody 1 d.pat.re = true)
+  ((∀ i ∈ Facts.lineFilterGroups d.filter, d.pat.Sets i = true) ∧ (d.filter = .quoteDef → groupAll nonEmptyBody 1 d.pat.re = true)) ∧
+  1 ≤ minLen d.pat.re
 
 omit hs in
 theorem lineDefs_ok : ∀ d ∈ Gen.lineDefs, LineDefOk d := by
   have h1 := Facts.lineDefs_set
   have h2 : Gen.lineDefs.all (fun d => d.filter != .quoteDef || groupAll nonEmptyBody 1 d.pat.re) = true := by decide +kernel
   intro d hd
-  refine ⟨?_, ?_⟩
+  refine ⟨⟨?_, ?_⟩, ?_⟩
   · intro i hi
     exact List.all_eq_true.mp (List.all_eq_true.mp h1 d hd) i hi
   · intro hf
     have := List.all_eq_true.mp h2 d hd
     simpa [hf] using this
+  · have := List.all_eq_true.mp Facts.lineDefs_minLen d hd
+    simpa using this
 
 theorem lineblocksGo_ok (allowed : List Str) : ∀ defs, (∀ d ∈ defs, LineDefOk d) → ∀ r w, Ok (lineblocksGo rec env allowed defs r w) := by
   have h1 := verifyMacroLine_ok rec env hs
@@ -348,10 +366,12 @@ theorem lineblocksGo_ok (allowed : List Str) : ∀ defs, (∀ d ∈ defs, LineDe
     have ih' := ih (fun x hx => hd x (List.mem_cons_of_mem _ hx))
     have hdo := hd d List.mem_cons_self
     have hof : ∀ cur mt, d.pat.search cur = some mt → mt.Of d.pat := fun _ _ h => Pat.search_of (Nat.zero_le _) h
-    have hlf : ∀ mt, mt.Of d.pat → Ok (lineFilter rec env d mt) := fun mt h => lineFilter_ok rec env hs d mt h hdo.1 hdo.2
+    have hlf : ∀ mt, mt.Of d.pat → Ok (lineFilter rec env d mt) := fun mt h => lineFilter_ok rec env hs d mt h hdo.1.1 hdo.1.2
     intro s hI
     unfold lineblocksGo
     hoare
+    -- `match[0][0]`: no line-block pattern matches the empty string
+    exact absurd (by assumption) (whole_ne_nil (hof _ _ (by assumption)) hdo.2)
 
 theorem lineblocksRender_ok (r : Reader) (w : Writer) (allowed : List Str) : Ok (lineblocksRender rec env r w allowed) := by
   have h := lineblocksGo_ok rec env hs allowed Gen.lineDefs lineDefs_ok
@@ -363,23 +383,49 @@ end
 
 /-! ## delimited blocks -/
 
-/-- what the delimited-block rules need of a definition -/
+/-- what the delimited-block rules need of a definition (a function of its shape) -/
 def blockDefOk (d : BlockDef) : Bool :=
   (Facts.blockOpenGroups d).all d.openMatch.Sets &&
-  (match d.verify with
-   | .code => groupAll nonEmptyBody 1 d.openMatch.re
-   | .html => decide (2 ≤ d.openMatch.ngroups)
-   | _ => true)
+  (decide (d.closeMatch.ngroups = 0) || d.closeMatch.Sets 1) &&
+  (d.name == "paragraph".toList || decide (1 ≤ minLen d.openMatch.re)) &&
+  (d.verify != .code || groupAll nonEmptyBody 1 d.openMatch.re) &&
+  (d.verify != .html || decide (2 ≤ d.openMatch.ngroups))
 
 theorem blockDefOk_congr {d d0 : BlockDef} (h : d.SameShape d0) : blockDefOk d = blockDefOk d0 := by
-  obtain ⟨_, h2, _, h4, h5, _⟩ := h
+  obtain ⟨h1, h2, h3, h4, h5, _⟩ := h
   unfold blockDefOk Facts.blockOpenGroups
-  rw [h2, h4, h5]
+  rw [h1, h2, h3, h4, h5]
 
-theorem Inv.blockOk {s : Session} (hI : Inv s) : ∀ d ∈ s.blockDefs, blockDefOk d = true := by
+structure BlockDefOk (d : BlockDef) : Prop where
+  groups : ∀ i ∈ Facts.blockOpenGroups d, d.openMatch.Sets i = true
+  close : d.closeMatch.ngroups = 0 ∨ d.closeMatch.Sets 1 = true
+  minlen : (d.name == "paragraph".toList) = false → 1 ≤ minLen d.openMatch.re
+  code : d.verify = .code → groupAll nonEmptyBody 1 d.openMatch.re = true
+  html : d.verify = .html → 2 ≤ d.openMatch.ngroups
+
+theorem BlockDefOk.of_bool {d : BlockDef} (h : blockDefOk d = true) : BlockDefOk d := by
+  unfold blockDefOk at h
+  simp only [Bool.and_eq_true, Bool.or_eq_true, decide_eq_true_eq, bne_iff_ne, ne_eq] at h
+  obtain ⟨⟨⟨⟨h1, h2⟩, h3⟩, h4⟩, h5⟩ := h
+  refine ⟨fun i hi => List.all_eq_true.mp h1 i hi, h2, ?_, ?_, ?_⟩
+  · intro hp
+    rcases h3 with h | h
+    · rw [hp] at h; cases h
+    · exact h
+  · intro hv
+    rcases h4 with h | h
+    · exact absurd hv h
+    · exact h
+  · intro hv
+    rcases h5 with h | h
+    · exact absurd hv h
+    · exact h
+
+theorem Inv.blockOk {s : Session} (hI : Inv s) : ∀ d ∈ s.blockDefs, BlockDefOk d := by
   have hall : Gen.blockDefaultDefs.all blockDefOk = true := by decide +kernel
   intro d hd
   obtain ⟨d0, hd0, hsh⟩ := hI.2 d hd
+  refine BlockDefOk.of_bool ?_
   rw [blockDefOk_congr hsh]
   exact List.all_eq_true.mp hall d0 hd0
 
@@ -429,21 +475,22 @@ theorem pc_blockExpand (d : BlockDef) (s : Session) : ∃ a, (blockExpand d).run
 include hdoc
 
 set_option maxHeartbeats 2000000 in
-theorem renderBlockBody_ok (d : BlockDef) (hd : blockDefOk d = true) (mt : Match) (hm : mt.Of d.openMatch) (r : Reader) (w : Writer) :
+theorem renderBlockBody_ok (d : BlockDef) (hd : BlockDefOk d) (mt : Match) (hm : mt.Of d.openMatch) (r : Reader) (w : Writer) :
     Ok (renderBlockBody rec env d mt r w) := by
   have hr := replaceInline_ok rec env hs
   have hmd := macroDefContentFilter_ok rec env hs
   have hic := indentedContentFilter_ok
   have huc := unterminatedCheck_ok
   have hbe := pc_blockExpand
-  have hrt := Reader.readTo_ok
+  have hrt : ∀ r : Reader, Ok (r.readTo d.closeMatch) := by
+    intro r
+    exact Reader.readTo_ok r _ hd.close
+  have hrt2 : ∀ (r : Reader) (g : Str), Ok (r.readTo (closeOf g)) := fun r g => Reader.readTo_ok r _ (.inl rfl)
   have hia := injectHtmlAttributes_ok
   have hstr : ∀ i, i ∈ Facts.blockOpenGroups d → ∀ site s,
       ∃ a, (mt.str i site).run s = .ok (a, s) ∧ mt.res.group mt.inp i = some a := by
     intro i hi
-    unfold blockDefOk at hd
-    simp only [Bool.and_eq_true] at hd
-    exact pc_str hm (List.all_eq_true.mp hd.1 i hi)
+    exact pc_str hm (hd.groups i hi)
   have s1o : d.delimiterFilter = .opening → ∀ site s,
       ∃ a, (mt.str 1 site).run s = .ok (a, s) ∧ mt.res.group mt.inp 1 = some a :=
     fun hf => hstr 1 (by simp [Facts.blockOpenGroups, hf])
@@ -458,7 +505,7 @@ theorem renderBlockBody_ok (d : BlockDef) (hd : blockDefOk d = true) (mt : Match
   unfold renderBlockBody
   hoare
 
-theorem renderBlock_ok (d : BlockDef) (hd : blockDefOk d = true) (mt : Match) (hm : mt.Of d.openMatch) (r : Reader) (w : Writer) :
+theorem renderBlock_ok (d : BlockDef) (hd : BlockDefOk d) (mt : Match) (hm : mt.Of d.openMatch) (r : Reader) (w : Writer) :
     Ok (renderBlock rec env d mt r w) := by
   have hb := renderBlockBody_ok rec env hs hdoc d hd mt hm
   intro s hI
@@ -472,7 +519,7 @@ theorem htmlVerify_ok (mt : Match) (h : 2 ≤ mt.ngroups) : Ok (htmlVerify mt) :
   unfold htmlVerify
   hoare
 
-theorem delimitedGo_ok (allowed : List Str) : ∀ defs, (∀ d ∈ defs, blockDefOk d = true) → ∀ r w,
+theorem delimitedGo_ok (allowed : List Str) : ∀ defs, (∀ d ∈ defs, BlockDefOk d) → ∀ r w,
     Ok (delimitedGo rec env allowed defs r w) := by
   have h3 := Reader.cursor_ok
   have h4 := Reader.unescape_ok
@@ -489,31 +536,32 @@ theorem delimitedGo_ok (allowed : List Str) : ∀ defs, (∀ d ∈ defs, blockDe
     have hhv : d.verify = .html → ∀ mt : Match, mt.Of d.openMatch → Ok (htmlVerify mt) := by
       intro hv mt hmo
       refine htmlVerify_ok mt ?_
-      unfold blockDefOk at hdo
-      simp only [hv, Bool.and_eq_true, decide_eq_true_eq] at hdo
-      rw [hmo.1]; exact hdo.2
+      rw [hmo.1]; exact hdo.html hv
     have hc1 : d.verify = .code → ∀ mt : Match, mt.Of d.openMatch → ∀ site s,
         ∃ a, (mt.str 1 site).run s = .ok (a, s) ∧ mt.res.group mt.inp 1 = some a := by
       intro hv mt hmo
-      unfold blockDefOk at hdo
-      simp only [Bool.and_eq_true] at hdo
-      exact pc_str hmo (List.all_eq_true.mp hdo.1 1 (by simp [Facts.blockOpenGroups, hv]))
+      exact pc_str hmo (hdo.groups 1 (by simp [Facts.blockOpenGroups, hv]))
     have hc2 : d.verify = .code → ∀ mt : Match, mt.Of d.openMatch → ∀ site s,
         ∃ a, (mt.str 2 site).run s = .ok (a, s) ∧ mt.res.group mt.inp 2 = some a := by
       intro hv mt hmo
-      unfold blockDefOk at hdo
-      simp only [Bool.and_eq_true] at hdo
-      exact pc_str hmo (List.all_eq_true.mp hdo.1 2 (by simp [Facts.blockOpenGroups, hv]))
+      exact pc_str hmo (hdo.groups 2 (by simp [Facts.blockOpenGroups, hv]))
     have hne : d.verify = .code → ∀ mt : Match, mt.Of d.openMatch → ∀ g, mt.res.group mt.inp 1 = some g → g ≠ [] := by
       intro hv mt hmo g hg
-      unfold blockDefOk at hdo
-      simp only [hv, Bool.and_eq_true] at hdo
-      exact group_nonempty hmo (by decide) hdo.2 hg
+      exact group_nonempty hmo (by decide) (hdo.code hv) hg
     intro s hI
+    have hwh : (d.name == "paragraph".toList) = false → ∀ mt : Match, mt.Of d.openMatch → mt.whole ≠ [] := by
+      intro hp mt hmo
+      exact whole_ne_nil hmo (hdo.minlen hp)
     unfold delimitedGo
-    hoare
-    -- `match[1][0]`: the fence of a code block is not empty
-    exact absurd rfl (hne (by assumption) _ (hof _ _ (by assumption)) _ (by assumption))
+    hoare_go
+    all_goals (try (first | inv_leaf | assumption))
+    all_goals first
+      -- `match[1][0]`: the fence of a code block is not empty
+      | exact absurd rfl (hne (by assumption) _ (hof _ _ (by assumption)) _ (by assumption))
+      -- `match[0][0]`: the opening line of every block but a paragraph is not empty
+      | (by_cases hp : (d.name == "paragraph".toList) = true
+         · rw [if_pos hp]; rfl
+         · exact absurd (by assumption) (hwh (by simpa using hp) _ (hof _ _ (by assumption))))
 
 theorem delimitedRender_ok (r : Reader) (w : Writer) (allowed : List Str) : Ok (delimitedRender rec env r w allowed) := by
   have hgo := delimitedGo_ok rec env hs hdoc allowed
@@ -527,7 +575,8 @@ theorem delimitedRender_ok (r : Reader) (w : Writer) (allowed : List Str) : Ok (
 omit hs hdoc in
 /-- the groups that the list rules read: the marker (last but one), the text (last), the term of a definition list -/
 def listDefOk (d : ListDef) : Bool :=
-  d.pat.Sets (d.pat.ngroups - 1) && d.pat.Sets d.pat.ngroups && (d.termOpenTag == [] || d.pat.Sets 1)
+  d.pat.Sets (d.pat.ngroups - 1) && d.pat.Sets d.pat.ngroups && (d.termOpenTag == [] || d.pat.Sets 1) &&
+  decide (1 ≤ minLen d.pat.re)
 
 omit hs hdoc in
 theorem listDefs_ok : ∀ d ∈ Gen.listDefs, listDefOk d = true := by
@@ -556,11 +605,18 @@ theorem matchItem_go_ok : ∀ defs, (∀ d ∈ defs, listDefOk d = true) → ∀
       rw [hmo.1]
       unfold listDefOk at hdo
       simp only [Bool.and_eq_true] at hdo
-      exact pc_str hmo hdo.1.1
+      exact pc_str hmo hdo.1.1.1
     intro s hI
+    have hwh : ∀ mt : Match, mt.Of d.pat → mt.whole ≠ [] := by
+      intro mt hmo
+      unfold listDefOk at hdo
+      simp only [Bool.and_eq_true, decide_eq_true_eq] at hdo
+      exact whole_ne_nil hmo hdo.2
     unfold matchItem.go
     hoare
-    exact ⟨by assumption, fun item h => by cases h; exact ⟨hof _ _ (by assumption), hdo⟩⟩
+    -- `match[0][0]`: no list pattern matches the empty string
+    · exact absurd (by assumption) (hwh _ (hof _ _ (by assumption)))
+    · exact ⟨by assumption, fun item h => by cases h; exact ⟨hof _ _ (by assumption), hdo⟩⟩
 
 omit hs hdoc in
 theorem matchItem_ok (r : Reader) : OkR (matchItem r) (fun res => ∀ item, res.1 = some item → item.Ok) := by
@@ -587,7 +643,7 @@ theorem ItemInfo.Ok.text {item : ItemInfo} (h : item.Ok) : ∀ site s,
   rw [hmo.1]
   unfold listDefOk at hd
   simp only [Bool.and_eq_true] at hd
-  exact pc_str hmo hd.1.2
+  exact pc_str hmo hd.1.1.2
 
 omit hs hdoc in
 theorem ItemInfo.Ok.term {item : ItemInfo} (h : item.Ok) (ht : (item.listdef.termOpenTag != []) = true) : ∀ site s,
@@ -595,7 +651,7 @@ theorem ItemInfo.Ok.term {item : ItemInfo} (h : item.Ok) (ht : (item.listdef.ter
   obtain ⟨hmo, hd⟩ := h
   unfold listDefOk at hd
   simp only [Bool.and_eq_true, Bool.or_eq_true] at hd
-  rcases hd.2 with h0 | h1
+  rcases hd.1.2 with h0 | h1
   · simp_all
   · exact pc_str hmo h1
 
